@@ -28,6 +28,20 @@ func (node *tagCycleNode) nextArg(ctx *ExecutionContext) IEvaluator {
 	return node.args[idx%len(node.args)]
 }
 
+// writeValue prints the current value of a cycle, HTML-escaped while
+// autoescaping is on (unless the argument is explicitly marked safe).
+func (node *tagCycleNode) writeValue(ctx *ExecutionContext, writer TemplateWriter, item IEvaluator, val *Value) *Error {
+	if ctx.Autoescape && !item.FilterApplied("safe") && !val.safe {
+		escaped, err := ApplyFilter("escape", val, nil)
+		if err != nil {
+			return err
+		}
+		val = escaped
+	}
+	writer.WriteString(val.String())
+	return nil
+}
+
 func (node *tagCycleNode) Execute(ctx *ExecutionContext, writer TemplateWriter) *Error {
 	item := node.nextArg(ctx)
 
@@ -51,7 +65,9 @@ func (node *tagCycleNode) Execute(ctx *ExecutionContext, writer TemplateWriter) 
 		t.value = val
 
 		if !t.node.silent {
-			writer.WriteString(val.String())
+			if err := node.writeValue(ctx, writer, item, val); err != nil {
+				return err
+			}
 		}
 	} else {
 		// Regular call
@@ -65,7 +81,9 @@ func (node *tagCycleNode) Execute(ctx *ExecutionContext, writer TemplateWriter) 
 			ctx.Private[node.asName] = cycleValue
 		}
 		if !node.silent {
-			writer.WriteString(val.String())
+			if err := node.writeValue(ctx, writer, item, val); err != nil {
+				return err
+			}
 		}
 	}
 
